@@ -308,23 +308,34 @@ def rows_and_reps(rep, rng, n):
         lines.append(f"tg.mid {f2b(0.5)} {lst(f2b(x) for x in tt)}")
         expect.append(lst(f2b(x) for x in t_mid))
         what.append("mid")
-    for _ in range(n):
+    for it in range(n):
         k = rng.randint(0, 5)
-        reps = [rng.choice([0, 1, 1, 2, 3, 7]) for _ in range(k)]
-        mats = [torch.zeros(2, 2, dtype=torch.float64) for _ in reps]
+        reps = [rng.choice([0, 1, 1, 2, 3, 7, rng.randint(1, 50)]) for _ in range(k)]
+        nq = rng.choice([1, 2, 3])
+        # badly prepared atoms per trajectory: all False / all True / mixed — every trajectory counts
+        bad = [rng.choice([[False] * nq, [True] * nq, [rng.random() < 0.5 for _ in range(nq)]]) for _ in reps]
+        if it == 0:
+            reps, nq, bad = [3, 50, 1, 2], 2, [[False, False], [True, True], [True, False], [True, True]]
+        mats = [torch.zeros(nq, nq, dtype=torch.float64) for _ in reps]
+        data = dict(reps=reps, bad_atoms=bad)
         try:
-            seqs = T.run_get_sequences(mats, reps, None, 0.0, [], 0.0, 2)
+            seqs = T.run_get_sequences(mats, reps, None, 0.0, [], 0.0, nq, bad=bad)
         except Exception as e:
-            rep.fail(f"get_sequences raised {type(e).__name__}: {e}", dict(reps=reps))
+            rep.fail(f"get_sequences raised {type(e).__name__}: {e}", data)
             continue
         got = [int(s.omega[0, 0].real.item()) for s in seqs]
         if len(seqs) != sum(reps):
-            rep.fail(f"get_sequences yielded {len(seqs)} SequenceData for reps {reps} (sum {sum(reps)})", dict(reps=reps),
-                     klass=None)
+            rep.fail(f"get_sequences yielded {len(seqs)} SequenceData for reps {reps} (sum {sum(reps)}), "
+                     f"bad_atoms per trajectory {bad}", data, klass=None)
+        want_bad = [tuple(b) for b, r in zip(bad, reps) for _ in range(r)]
+        if len(seqs) == sum(reps) and [tuple(s.bad_atoms) for s in seqs] != want_bad:
+            rep.fail("yielded SequenceData carry the wrong bad_atoms mask", data, klass=None)
         lines.append(f"tg.reps {lst(str(r) for r in reps)}")
         expect.append(lst(str(g) for g in got))
         what.append("reps")
-        rep.hist("reps_total", min(sum(reps), 10))
+        rep.hist("reps_total", min(sum(reps) // 10 * 10, 100))
+        for b in bad:
+            rep.hist("trajectory_bad_atoms", "all" if all(b) else ("none" if not any(b) else "mixed"))
     return lines, expect, what
 
 
@@ -405,6 +416,15 @@ def replay(rep: Report, path: str) -> int:
     bad = 0
     for f in data.get("failing_inputs", []):
         d = f["data"]
+        if "reps" in d and "D" not in d:
+            import torch
+            nq = len(d["bad_atoms"][0]) if d.get("bad_atoms") else 2
+            mats = [torch.zeros(nq, nq, dtype=torch.float64) for _ in d["reps"]]
+            seqs = T.run_get_sequences(mats, d["reps"], None, 0.0, [], 0.0, nq, bad=d.get("bad_atoms"))
+            msg = None if len(seqs) == sum(d["reps"]) else f"yielded {len(seqs)} SequenceData for reps {d['reps']}"
+            print("replay:", msg or "property holds on this input now")
+            bad += bool(msg)
+            continue
         if "D" not in d:
             print("replay: input not replayable by C21:", d)
             continue
